@@ -260,7 +260,7 @@ def _judge(case, wire_hex, p, strict):
                 if len(got) != len(name) or any(a != b for a, b in zip(got, name) if not b.startswith('02')):
                     return 'parsed name differs from the name given (digest supplied in place)'
             else:
-                if got[:-1] != name or not got[-1].startswith('0220') or len(got[-1]) != 68:
+                if not got or got[:-1] != name or not got[-1].startswith('0220') or len(got[-1]) != 68:
                     return 'parsed name is not the given name plus one ParametersSha256Digest component'
         elif got != name:
             return 'parsed name differs from the name given'
